@@ -18,7 +18,7 @@ import re
 
 from lxml import etree
 
-REPO = os.environ.get("VERIF_REPO", "/repo")
+REPO = (os.environ.get("VERIF_REPO") or "/repo")
 XSD_DIRS = [os.path.join(REPO, "spec", "ISO-IEC-29500-4", "xsd"), os.path.join(REPO, "spec", "ISO-IEC-29500-2", "opc-xsd")]
 XS = "http://www.w3.org/2001/XMLSchema"
 XSQ = "{%s}" % XS
